@@ -59,12 +59,14 @@ Proof. exact status_line_accepted_iff_grammar. Qed.
 Print Assumptions C23_status_line_accepted_iff_grammar.
 
 (* at the level of parse(): an accepted reply head is HTTP/0.9 gatewaying or a grammatical status
-   line + header block + rest, with the grammar's fields *)
+   line + header block (ending with an empty line: LF or CR LF at the start of a line) + rest, with
+   the grammar's fields *)
 Theorem C23_accepted_reply_shape : forall relaxed limit b f rest, lenN b < npos ->
   step relaxed limit pst0 b = Done f rest ->
   (no_magic_relation b /\ f = gateway_fields /\ rest = b) \/
   (exists line proto major minor status reason block,
      b = line ++ block ++ rest /\ status_line relaxed line proto major minor status reason /\
+     ends_with_empty_line block /\
      f_proto f = proto /\ f_major f = major /\ f_minor f = minor /\ f_status f = status /\
      f_reason f = reason).
 Proof. exact accepted_reply_shape. Qed.
